@@ -518,6 +518,10 @@ def s_pile (plan, epoll=False):
         else:
           try: hub.idle()
           except Quiescent: return True
+          except BlockingIOError as e:
+            # the hub itself read its empty (blocking) wake-up pipe: the scheduler thread would sit in that read for good
+            st["blocked"] = str(e) or "read of an empty pipe"
+            return False
       return False
     total = sum(n for _, n, _ in plan)
     budget = 200 + 50 * len(plan) + 4 * total
@@ -570,6 +574,9 @@ def s_pile (plan, epoll=False):
     obs = (len(ran), fos.reads)
     kind = dict(thread="calllater", task="calllater", nested="calllater", start="idle", wake="wake")
     if fos.overflow: return ("calllater:pipe-overflow", "more than %d bytes pending in a wake-up pipe: the writer would block" % PIPE_CAP), obs
+    if st.get("blocked"):
+      return ("calllater:lost-wakeup:scheduler-blocks-in-pipe-read", "the scheduler thread blocks for good in a read of its empty wake-up pipe (%s) with %d of %d pieces of work not yet run"
+              % (st["blocked"], total - len(set(ran)), total)), obs
     if len(ran) != len(set(ran)):
       twice = sorted(set(t for t in ran if ran.count(t) > 1))[0] if len(ran) < 5000 else [t for t, c in collections.Counter(ran).items() if c > 1][0]
       src = plan[twice[0]][0]
